@@ -9,7 +9,7 @@ from extract.unit import UnitBuilder
 from extract.rsx import AnchorError
 
 VERIF = os.path.dirname(os.path.dirname(os.path.abspath(__file__)))
-BUILD = os.path.join(VERIF, 'build')
+BUILD = os.path.join(VERIF, 'build', os.environ.get('VERIF_BUILD_SUB', '')).rstrip('/')
 REPO = os.environ.get('VERIF_REPO', '/repo')
 
 ASSUME_PAT = re.compile(r'\b(assume\s*\(|admit\s*\(|external_body|assume_specification|verifier::external\b|verifier::external_fn_specification|verifier::external_type_specification|uninterp\s+spec|axiom\s+fn|Partial(?:Eq|Ord)SpecImpl\s+for)')
